@@ -1,6 +1,7 @@
 (* C11 — Split enumeration covers every row exactly once, canonically.
    This file holds only statement pins, `exact` proofs and Print Assumptions.
    The theorems hold for ALL values of the three constants (c : consts); the engine's are engine_consts. *)
+From Coq Require Import Sorting.Sorted.
 From QV Require Import Base.Util C12.Model C11.Model C11.Proofs.
 
 (* one row group: pieces contiguous from offset 0, each with >= 1 row, row counts summing to the group *)
@@ -32,6 +33,22 @@ Theorem C11_cover_exact : forall c table files nodes,
        ps <> [] /\ contiguous_s 0 ps /\ zsum (map s_rows ps) = g_rows g
        /\ (forall s, In s ps -> s_table s = table /\ s_file s = g_file g /\ s_rg s = g_index g).
 Proof. exact cover_exact. Qed.
+
+(* with pairwise distinct file names the final sort is the identity: the output IS, in this order, the
+   pieces of each non-empty row group of each file in file-name order, strictly ascending by canonical key *)
+Theorem C11_enumerate_sorted : forall c table files nodes, NoDup (map fst files) ->
+  ss_splits (enumerate_c c table files nodes)
+  = flat_map (splits_of_rg table (ss_target (enumerate_c c table files nodes))) (inventory files)
+  /\ StronglySorted (fun x y => key_cmp x y = Lt) (ss_splits (enumerate_c c table files nodes)).
+Proof. exact enumerate_sorted. Qed.
+
+(* the executable spec the implementation's outputs are judged by is met by the model on every input
+   outside the known class (distinct names) with i64 footer values *)
+Theorem C11_model_meets_spec : forall c table files nodes,
+  NoDup (map fst files) ->
+  (forall f r b, In f files -> In (r, b) (snd f) -> r < W63 /\ b < W63) ->
+  spec_ok table files (enumerate_c c table files nodes) = true.
+Proof. exact model_meets_spec. Qed.
 
 (* bytes_exact: per row group, and for the table *)
 Theorem C11_bytes_exact : forall c table files nodes, i64_files files ->
@@ -129,6 +146,8 @@ Print Assumptions C11_cut_cover.
 Print Assumptions C11_cut_bytes.
 Print Assumptions C11_inventory_exact.
 Print Assumptions C11_cover_exact.
+Print Assumptions C11_enumerate_sorted.
+Print Assumptions C11_model_meets_spec.
 Print Assumptions C11_bytes_exact.
 Print Assumptions C11_total_bytes_exact.
 Print Assumptions C11_total_rows_exact.
